@@ -28,8 +28,10 @@ RULE = ("one evaluation = one seeded history (3-30 operations, swarm-selected su
 SCHED_MEASURE = "distinct (ndim, operation-kind 3-gram) pairs visited"
 SIM_TIME_NOTE = "no clock in this engine (sequential history simulation); sim_time_s is 0"
 ASSUMPTIONS = [
-    "cell arrays are float64 and passed as fresh objects (the class stores references; caller-side "
-    "aliasing is not part of the property); values taken from another Vector come from a copy",
+    "cell arrays are float64 or int64 and passed as fresh objects (the class stores references; "
+    "caller-side aliasing is not part of the property); values taken from another Vector come from a "
+    "copy; the model applies numpy's own in-place assignment casting, values are compared "
+    "numerically (add_fields pads with float zeros)",
     "slices returned by __getitem__ are compared and dropped (they share cell arrays with their "
     "source by design: 'view'); only copy() and independently created vectors must be independent",
     "when an index expression of slices/lists addresses exactly one cell the bare array or a "
@@ -44,7 +46,7 @@ EXPECTED_PROBES = ["ndim1", "ndim2", "ndim3", "unset_cell_read", "zero_row_cell"
                    "slice_set_from_vector", "rejected_wrong_columns", "rejected_duplicate_field",
                    "rejected_out_of_range", "copy_independence_checked", "metadata_independence_checked",
                    "set_flattened_identity", "fancy_list_index", "negative_step_slice",
-                   "single_cell_via_slice"]
+                   "single_cell_via_slice", "integer_cell_field_op"]
 
 OPS = ["set_cell", "get_cell", "slice_get", "slice_set", "field_op", "flatten", "set_flat",
        "add_fields", "remove_fields", "copy_check", "metadata", "second_vector", "rejected",
@@ -183,8 +185,13 @@ class MVec:
 
 
 def _cell(fill, rows, nf):
+    """A fresh cell array; about a third are integer-typed (numpy's casting on in-place field
+    arithmetic then matters; the model applies the very same numpy assignment)."""
     g = np.random.Generator(np.random.PCG64(fill))
-    return np.round(g.uniform(-9, 9, (rows, nf)), 3)
+    a = np.round(g.uniform(-9, 9, (rows, nf)), 3)
+    if fill % 3 == 0:
+        return np.round(a).astype(np.int64)
+    return a
 
 
 def _resolve_index(index, shape, partial):
@@ -377,7 +384,7 @@ def run(plan):
         v, m = vecs[slot]
         for idx in m.order():
             c = read_cell(v, idx)
-            m.cells[idx] = None if c is None else np.array(c, dtype=float, copy=True)
+            m.cells[idx] = None if c is None else np.array(c, copy=True)
         m.fields = list(v.fields)
         m.units = list(v.units)
 
@@ -523,6 +530,12 @@ def run(plan):
                 f = m.fields[j]
                 x = op["x"]
                 sym = op["sym"]
+                ints = [c for c in m.cells.values() if c is not None and c.dtype.kind in "iu"
+                        and c.size]
+                if ints and (sym == "**" or max(float(np.abs(c).max()) for c in ints) > 1e12):
+                    # float -> int64 casts of out-of-range / NaN values are undefined behaviour in
+                    # numpy (SIMD vs scalar paths differ): keep integer cells in a safe range
+                    continue
                 fn = {"+": lambda a: a + x, "-": lambda a: a - x, "*": lambda a: a * x,
                       "/": lambda a: a / x, "//": lambda a: a // x, "%": lambda a: a % x,
                       "**": lambda a: a ** x}[sym]
@@ -550,6 +563,8 @@ def run(plan):
                 with np.errstate(all="ignore"):
                     for idx, c in m.cells.items():
                         if c is not None:
+                            if c.dtype.kind in "iu" and c.shape[0]:
+                                bump(probes, "integer_cell_field_op")
                             c[:, j] = fn(c[:, j])
                 n_mut[0] += 1
                 check_all("field_op")
